@@ -284,6 +284,7 @@ func (l *QueueBlockingLimiter) tryAcquire(ctx context.Context) core.Listener {
 	// operation.  Holders will be unblocked in LIFO or FIFO order depending on whatever
 	// ordering was configured when backlog was instantiated
 	evict, eventReleaseChan := l.backlog.push(ctx)
+	verifPoint("queue.afterPush")
 
 	// We're using a nil chan so that we
 	// can avoid needing to duplicate the
